@@ -35,7 +35,7 @@ def dim_labels(rng, kind, allow_empty):
         pool = [float(x) for x in range(0, 7)] if kind == 'if' else [x / 2.0 for x in range(0, 7)]
     else:
         pool = list('abcdefg')
-    n = rng.choice([0] if allow_empty and rng.random() < 0.08 else [1, 2, 2, 3, 3, 4])
+    n = rng.choice([0] if allow_empty and rng.random() < 0.2 else [1, 2, 2, 3, 3, 4])
     lab = gen.reorder(rng, sorted(rng.sample(pool, n)), rng.choice(['inc', 'dec', 'shuf']))
     return lab, k
 
@@ -57,7 +57,7 @@ def gen_input(rng, kinds, allow_empty, base=None):
 
 def gen_case(rng):
     kinds = {d: rng.choice(['i', 'f', 's', 'if']) for d in POOL}
-    allow_empty = rng.random() < 0.15
+    allow_empty = rng.random() < 0.3
     n = rng.randint(1, 4)
     inputs = []
     for i in range(n):
